@@ -285,4 +285,21 @@ pub mod props {
         ensures (f is Stdout || f is Completion || f is Stderr), // #three_outcome_classes
     {}
 //@@ end
+
+//@@ lemma
+//@@ unit lemma.C12.one_list_per_entry tags=C12
+    /// C12 "lists every item ... and lists nothing else": the three item lists of `--help` partition the collected entries: an
+    /// entry that is not inside an `anywhere` block is shown under exactly one of options / commands / positionals; inside
+    /// such a block it is shown (once) iff it carries help text, and never under two lists
+    pub proof fn lemma_c12_one_list_per_entry(items: Seq<HelpItem>, k: int)
+        requires 0 <= k < items.len(),
+        ensures
+            !(listed_under(items, HiTy::Flag, k) && listed_under(items, HiTy::Command, k)), // #never_in_two_lists
+            !(listed_under(items, HiTy::Flag, k) && listed_under(items, HiTy::Positional, k)),
+            !(listed_under(items, HiTy::Command, k) && listed_under(items, HiTy::Positional, k)),
+            is_bracket(items[k]) || !(block_at(items, k) is Anywhere) || described(items[k])
+                ==> listed_under(items, HiTy::Flag, k) || listed_under(items, HiTy::Command, k) || listed_under(items, HiTy::Positional, k), // #every_entry_in_some_list
+    {
+    }
+//@@ end
 }
